@@ -3,7 +3,7 @@
 import copy
 
 from . import registry
-from .exceptions import ParseError
+from .exceptions import CustomContentError, ParseError
 from .utils import _get_dict, detect_spec_version
 
 
@@ -100,7 +100,18 @@ def dict_to_stix2(stix_dict, allow_custom=False, interoperability=False, version
                 return stix_dict
         raise ParseError("Can't parse unknown object type '%s'! For custom types, use the CustomObject decorator." % obj_type)
 
-    return obj_class(allow_custom=allow_custom, interoperability=interoperability, **stix_dict)
+    obj = obj_class(allow_custom=allow_custom, interoperability=interoperability, **stix_dict)
+    _refuse_unrequested_custom(obj, allow_custom)
+    return obj
+
+
+def _refuse_unrequested_custom(obj, allow_custom):
+    # A "custom_properties" member of the parsed data makes the constructor
+    # switch customization on by itself; the caller did not ask for it.
+    if not allow_custom and obj.has_custom:
+        raise CustomContentError(
+            "customized {} object found".format(obj["type"]),
+        )
 
 
 def parse_observable(data, _valid_refs=None, allow_custom=False, interoperability=False, version=None):
@@ -148,4 +159,6 @@ def parse_observable(data, _valid_refs=None, allow_custom=False, interoperabilit
             "use the CustomObservable decorator." % obj['type'],
         )
 
-    return obj_class(allow_custom=allow_custom, interoperability=interoperability, **obj)
+    obj = obj_class(allow_custom=allow_custom, interoperability=interoperability, **obj)
+    _refuse_unrequested_custom(obj, allow_custom)
+    return obj
